@@ -27,7 +27,9 @@ func run(c *hlib.Ctx) {
 	runBool(c)
 	runSmooth(c)
 	runSmoothFloat(c)
+	runSmoothSolid(c)
 	runScenes(c)
+	runTrees(c)
 	runStack(c)
 	runRectSet(c)
 }
